@@ -369,6 +369,9 @@ func (s *sg) args(kinds string) {
 			s.argStrings(1, 3, true)
 		case "dims":
 			s.argDims()
+		case "mode":
+			// a file permission: positive, conventionally written in octal
+			s.o.expr(&Expr{K: "int", V: rapid.SampledFrom([]string{"0644", "0600", "0755", "420", "0777"}).Draw(s.t, "fileMode")})
 		default:
 			panic("arg kind " + k)
 		}
@@ -402,6 +405,7 @@ var unsupported = map[string]map[string]string{
 		"+groupBy.quiet": "", "+alert.quiet": "", "+barrier.quiet": "", "+combine.quiet": "", "+httpOut.quiet": "", "+httpPost.quiet": "", "+log.quiet": "", "+sideload.quiet": "",
 	},
 	"tick": {
+		"alert.email.toTemplates": "T9 pipeline/tick AST.Build fails on an email handler with toTemplates (unsupported literal type []string)",
 		"alert.discord": classT2 + "alert discord handler", "alert.category": classT2 + "alert.category",
 		"alert.opsGenie2.recoveryAction": classT2 + "opsGenie2.recoveryAction", "alert.opsGenie2.details": classT2 + "opsGenie2.details",
 		"alert.teams": "T6 pipeline/tick renders handlers in a fixed order: a .teams() handler written after .opsGenie()/.opsGenie2() is taken as that handler's teams property",
@@ -753,7 +757,7 @@ var handlers = []handler{
 	{"tcp", "s", nil},
 	{"email", "S", []prop{{"to", "S"}, {"toTemplates", "S"}}},
 	{"exec", "s S", nil},
-	{"log", "s", []prop{{"mode", "i"}}},
+	{"log", "s", []prop{{"mode", "mode"}}},
 	{"victorOps", "", []prop{{"routingKey", "s"}}},
 	{"pagerDuty", "", []prop{{"serviceKey", "s"}}},
 	{"pagerDuty2", "", []prop{{"routingKey", "s"}, {"link", "s s?"}, {"serviceKey", "s"}}},
@@ -799,10 +803,10 @@ var simpleNodes = []nodeSpec{
 	{"sideload", "", "", "=", []prop{{"source", "s"}, {"order", "S"}, {"field", "n any"}, {"tag", "n s"}}},
 	{"influxDBOut", "", "", "-", []prop{{"cluster", "s"}, {"database", "s"}, {"retentionPolicy", "s"}, {"measurement", "s"}, {"writeConsistency", "s"}, {"precision", "s"}, {"buffer", "i"}, {"flushInterval", "d"}, {"tag", "n s"}, {"create", ""}}},
 	{"percentile", "n f", "", "s", []prop{{"as", "n"}, {"usePointTimes", ""}}},
-	{"elapsed", "n d", "", "s", []prop{{"as", "n"}}},
-	{"movingAverage", "n i", "", "s", []prop{{"as", "n"}}},
-	{"holtWinters", "n i i d", "", "s", []prop{{"as", "n"}}},
-	{"holtWintersWithFit", "n i i d", "", "s", []prop{{"as", "n"}, {"usePointTimes", ""}}},
+	{"elapsed", "n d", "", "=", []prop{{"as", "n"}}},
+	{"movingAverage", "n i", "", "=", []prop{{"as", "n"}}},
+	{"holtWinters", "n i i d", "", "b", []prop{{"as", "n"}}},
+	{"holtWintersWithFit", "n i i d", "", "b", []prop{{"as", "n"}, {"usePointTimes", ""}}},
 	{"top", "i n N", "", "b", []prop{{"as", "n"}}},
 	{"bottom", "i n N", "", "b", []prop{{"as", "n"}}},
 	{"stats", "d", "", "s", []prop{{"align", ""}}},
@@ -918,8 +922,11 @@ func (s *sg) node(edge string) (out string) {
 		s.call(fn, "n")
 		s.someProps([]prop{{"as", "n"}, {"usePointTimes", ""}}, 2)
 		out = "s"
-		if fn == "distinct" {
+		switch fn {
+		case "distinct":
 			out = "b"
+		case "difference", "cumulativeSum":
+			out = edge
 		}
 	case k == 33:
 		s.pipe()
